@@ -11,6 +11,12 @@ def main():
     replay = sys.argv[6] if len(sys.argv) > 6 else None
     spec = json.loads(spec)
     ctx = core.Ctx(prop, tier, int(seed), shard=spec, replay=bool(replay))
+    import os
+    ctx.ambient = json.loads(os.environ.get('VERIF_AMBIENT') or 'null')
+    if ctx.ambient:
+        ctx.counters['ambient.hashseed-%s' % ctx.ambient['hashseed']] += 1
+        ctx.counters['ambient.python-O' if ctx.ambient.get('optimize') else 'ambient.asserts-on'] += 1
+        ctx.counters['ambient.cwd-%s' % ('verif' if ctx.ambient['cwd'] == core.VERIF else 'repo' if ctx.ambient['cwd'] == core.REPO else 'root')] += 1
     cover.start()          # before athlib is imported: line coverage of the anchored functions (report only)
     core.import_athlib()
     mod = importlib.import_module('vf.props.%s' % prop.lower())
@@ -20,7 +26,14 @@ def main():
         print('replaying %d witnesses of %s [%s] against %s' % (len(r['witnesses']), prop, r['key'], core.REPO))
         mod.replay(ctx, [core.unjson(w['case']) for w in r['witnesses']])
     else:
+        from . import attach
+        import random
+        if not getattr(mod, 'NO_DETERMINISM', False):
+            attach.DET['ctx'] = ctx
         mod.run_shard(ctx, spec)
+        if attach.DET['recs']:
+            attach.replay_recorded(random.Random(int(seed) * 7 + 1))
+            attach.replay_recorded(random.Random(int(seed) * 7 + 2))
     d = ctx.dump()
     d['cover'] = cover.collected()
     with open(out, 'w') as f:
